@@ -16,6 +16,7 @@ type Opt struct {
 	Dense           bool     // make pointer fields non-nil more often
 	RelativePeriods bool     // allow TimePeriodType values with only a relative end time
 	MaxDepth        int      // below this depth pointers to structs become nil (default 4)
+	Extremes        bool     // integers and floats also take the boundaries of their type and values beyond 2^53
 	UnsortedFull    bool     // listgen: the items of a full update may come in any identifier order
 	NestedElements  bool     // listgen: delete elements may name sub elements (value:{scale:{}})
 	LooseSelectors  bool     // listgen: delete selectors may name part of the key or non-key elements (several matches)
@@ -103,8 +104,28 @@ func fill(t *rapid.T, v reflect.Value, o Opt, depth int, path string) {
 	case reflect.String:
 		v.SetString(stringFor(t, typ, path))
 	case reflect.Uint, reflect.Uint8, reflect.Uint16, reflect.Uint32, reflect.Uint64:
+		if o.Extremes && rapid.IntRange(0, 5).Draw(t, path+"/extreme") == 0 {
+			bits := typ.Bits()
+			hi := ^uint64(0) >> (64 - bits)
+			cands := []uint64{hi, hi - 1}
+			if bits == 64 {
+				cands = append(cands, 1<<53+1, 1<<63, 12345678901234567890)
+			}
+			v.SetUint(rapid.SampledFrom(cands).Draw(t, path))
+			return
+		}
 		v.SetUint(rapid.SampledFrom(o.IDs).Draw(t, path))
 	case reflect.Int, reflect.Int8, reflect.Int16, reflect.Int32, reflect.Int64:
+		if o.Extremes && rapid.IntRange(0, 3).Draw(t, path+"/extreme") == 0 {
+			bits := typ.Bits()
+			hi := int64(1)<<(bits-1) - 1
+			cands := []int64{hi, -hi - 1, hi - 1, -hi}
+			if bits == 64 {
+				cands = append(cands, 1<<53, 1<<53+1, -(1<<53 + 1), 1234567890123456789, 4611686018427387905)
+			}
+			v.SetInt(rapid.SampledFrom(cands).Draw(t, path))
+			return
+		}
 		v.SetInt(int64(rapid.IntRange(-3, 100).Draw(t, path)))
 	case reflect.Float32, reflect.Float64:
 		v.SetFloat(float64(rapid.IntRange(-1000, 1000).Draw(t, path)) / 8)
